@@ -9,7 +9,31 @@ import Restful.Go.Str
 namespace Restful.Imp
 open Restful
 
-abbrev GoErr := Option Str
+/-- an error value of the package (`ServiceError`: code, message, header); errors of other packages are
+    values of the same shape whose content nobody reads -/
+structure ErrVal where
+  code : Int := 0
+  message : Str := []
+  header : List (Str × List Str) := []
+  deriving DecidableEq, Repr
+
+/-- Go `error`: `none` = nil -/
+abbrev GoErr := Option ErrVal
+
+/-- what the package reads of a `*http.Request`: `.Method`, `.URL.Path`, `.Header.Get(key)` (the first value
+    of the canonical key, "" when absent), `.ContentLength` -/
+structure HttpRequest where
+  method : Str
+  path : Str
+  header : Str → Str
+  contentLength : Int
+
+/-- a compiled `*regexp.Regexp` as its `FindStringSubmatch` function (`[]` = nil = no match; a match has at
+    least one element); `MatchString s` is `!(re s).isEmpty` -/
+abbrev Regexp := Str → List Str
+
+/-- `*p` / `p.f` through a pointer: a nil pointer is a run-time panic -/
+def deref {α : Type} (p : Option α) : Option α := p
 
 /-- `len(x)` of a string or slice -/
 def len {α : Type} (xs : List α) : Int := (xs.length : Nat)
